@@ -388,7 +388,7 @@ def entry_bytes(off, size_hint, rnd):
 def impl_consumer(off, buf, maxbuf, replies):
     """Drive the REAL Consumer.  replies = list of record-set byte strings, the i-th answers the i-th fetch request,
     or a function (i, offset, max_bytes) -> record-set bytes | None (None = stop).
-    Returns the trace (1 off max_bytes | 2 | 3 first last | 8 | 9 code)* in order of occurrence."""
+    Returns the trace (1 off max_bytes | 2 | 3 n offsets*n | 8 | 9 code)* in order of occurrence."""
     from twisted.internet import defer, task
     from afkak.common import ConsumerFetchSizeTooSmall
     from afkak.consumer import Consumer
@@ -399,15 +399,17 @@ def impl_consumer(off, buf, maxbuf, replies):
         def __init__(self):
             self.reactor = task.Clock()
             self.pending = None
+            self.last = None
 
         def send_fetch_request(self, payloads, fail_on_error=True, callback=None, max_wait_time=None, min_bytes=None):
             (p,) = payloads
             out.extend([1, p.offset, p.max_bytes])
+            self.last = (p.offset, p.max_bytes)
             self.pending = defer.Deferred()
             return self.pending
 
     def processor(consumer, msgs):
-        out.extend([3, msgs[0].offset, msgs[-1].offset])
+        out.extend([3, len(msgs)] + [m.offset for m in msgs])
 
     client = Client()
     c = Consumer(client, "t", 0, processor, buffer_size=buf, max_buffer_size=maxbuf)
@@ -419,7 +421,7 @@ def impl_consumer(off, buf, maxbuf, replies):
     i = 0
     while client.pending is not None:
         if callable(replies):
-            rec = replies(i, out[-2], out[-1])      # the request just recorded: [..., 1, offset, max_bytes]
+            rec = replies(i, client.last[0], client.last[1])
         else:
             rec = replies[i] if i < len(replies) else None
         if rec is None:
@@ -427,20 +429,21 @@ def impl_consumer(off, buf, maxbuf, replies):
         i += 1
         p, client.pending = client.pending, None
         p.callback(list(KafkaCodec.decode_fetch_response(fetch_response_bytes(rec))))
-        client.reactor.advance(0)
+        client.reactor.advance(100)          # callLater(0) after an answer; the retry delay (<= 30 s) after a decoding error
     return out
 
 
 def parse_ctrace(trace):
-    """[("fetch", off, max_bytes) | ("deliver", first, last) | ("failed",) | ("other", code...)]"""
+    """[("fetch", off, max_bytes) | ("deliver", [offsets]) | ("failed",) | ("other", code...)]"""
     items, i = [], 0
     while i < len(trace):
         if trace[i] == 1:
             items.append(("fetch", trace[i + 1], trace[i + 2]))
             i += 3
         elif trace[i] == 3:
-            items.append(("deliver", trace[i + 1], trace[i + 2]))
-            i += 3
+            n = trace[i + 1]
+            items.append(("deliver", list(trace[i + 2:i + 2 + n])))
+            i += 2 + n
         elif trace[i] == 2:
             items.append(("failed",))
             i += 1
@@ -450,62 +453,150 @@ def parse_ctrace(trace):
     return items
 
 
+CLEAN, TOOSMALL, CORRUPT = 0, 1, 2
+
+
 def grow_case(off, buf, maxbuf, events):
+    """events = [(offsets the decoder yields, tail)]"""
     c = [1, off, buf, 0 if maxbuf is None else 1, 0 if maxbuf is None else maxbuf, len(events)]
-    for e in events:
-        c += [0] if e is None else [1, e]
+    for offs, tail in events:
+        c += [tail] + lp(offs)
     return c
 
 
-def consumer_monitor(trace, events, maxbuf):
-    """C12_consumer_grows / never_skips over the implementation trace"""
+def small_entry(off, rnd, size=None):
+    m = CL.raw_msg(rnd.choice([0, 1]), 0, None, CL.rbytes(rnd, rnd.randint(0, 12) if size is None else size), 3)
+    return struct.pack(">qi", off, len(m)) + m
+
+
+def reply_for(offs, tail, rnd):
+    """a record set for which the real set decoder yields exactly the offsets `offs` and then ends as `tail` says"""
+    rec, i = b"", 0
+    while i < len(offs):
+        # now and then a real gzip wrapper (format 0: absolute inner offsets) around a stretch of the offsets
+        k = rnd.randint(2, 3)
+        if rnd.random() < 0.25 and i + k <= len(offs):
+            inner = b"".join(small_entry(o, rnd) for o in offs[i:i + k])
+            w = CL.raw_msg(0, 1, None, CL.gz(inner))
+            rec += struct.pack(">qi", offs[i + k - 1], len(w)) + w
+            i += k
+        else:
+            rec += small_entry(offs[i], rnd)
+            i += 1
+    nxt = (offs[-1] + 1) if offs else 0
+    if tail == CLEAN:
+        if offs and rnd.random() < 0.5:           # a cut entry behind complete ones is dropped silently
+            e = small_entry(nxt, rnd, 10)
+            rec += e[:rnd.randint(1, len(e) - 1)]
+    elif tail == TOOSMALL:
+        e = small_entry(nxt, rnd, 10)
+        cut = e[:rnd.randint(1, len(e) - 1)]
+        if offs or rnd.random() < 0.3:            # after messages only a wrapper whose INNER set is cut can raise it
+            w = CL.raw_msg(rnd.choice([0, 1]), 1, None, CL.gz(cut), 5)
+            rec += struct.pack(">qi", nxt, len(w)) + w
+        else:
+            rec += cut
+    else:
+        kind = rnd.choice(["crc", "crc", "codec", "gzip", "neglen"])
+        if kind == "crc":
+            m = CL.raw_msg(rnd.choice([0, 1]), 0, None, b"damaged", 3, crc=rnd.getrandbits(32))
+            if struct.unpack(">I", m[:4])[0] == (zlib.crc32(m[4:]) & 0xFFFFFFFF):
+                m = bytes([m[0] ^ 1]) + m[1:]
+        elif kind == "codec":
+            m = CL.raw_msg(0, 3, None, b"zz")
+        elif kind == "gzip":
+            m = CL.raw_msg(0, 1, None, b"not gzip at all")
+        else:
+            body = struct.pack(">BB", 0, 0) + struct.pack(">i", -5) + struct.pack(">i", 0)
+            m = struct.pack(">I", zlib.crc32(body) & 0xFFFFFFFF) + body
+        rec += struct.pack(">qi", nxt, len(m)) + m
+    return rec
+
+
+def py_accept(fo, offs):
+    """the rule of consumer.py:941-957 restated (used only to steer the generator, never as an oracle)"""
+    kept = []
+    for o in offs:
+        if o >= fo:
+            kept.append(o)
+            fo = o + 1
+    return kept, fo
+
+
+def consumer_monitor(trace, events, start, maxbuf):
+    """C12_consumer_grows / C12_consumer_no_repeat over the implementation trace.
+    events[i] = (offsets yielded, tail) answers the i-th fetch request."""
     items = parse_ctrace(trace)
     for x in items:
         if x[0] == "other":
             return "unexpected outcome of the start Deferred: %r" % (x[1:],)
-    fetches = [x for x in items if x[0] == "fetch"]
-    if not fetches:
-        return "no fetch request"
-    # walk: events answer the fetches in order
-    if items[0][0] != "fetch":
+    if not items or items[0][0] != "fetch":
         return "the first output is not a fetch request"
-    cur_off, cur_buf = items[0][1], items[0][2]
-    pos = 1   # items[0] is the first fetch
-    for e in events:
-        rest = items[pos:]
-        if e is None:
-            if not rest:
-                return "an answer without a complete message produced neither a new request nor a failure"
-            if rest[0][0] == "failed":
-                if maxbuf is None or cur_buf < maxbuf:
-                    return "start failed although the buffer %d is below the maximum %r" % (cur_buf, maxbuf)
-                if len(rest) > 1:
-                    return "activity after the start Deferred failed"
-                return None
-            if rest[0][0] != "fetch":
-                return "messages delivered from an answer that holds no complete message"
-            _, o, b = rest[0]
-            if o != cur_off:
-                return "offset %d skipped to %d after a too-small answer" % (cur_off, o)
-            if not b > cur_buf:
-                return "buffer not enlarged after a too-small answer (%d -> %d)" % (cur_buf, b)
-            if maxbuf is not None and b > maxbuf:
-                return "buffer %d above max_buffer_size %d" % (b, maxbuf)
-            cur_buf = b
-            pos += 1
-        elif e == 0:
-            if not rest or rest[0] != ("fetch", cur_off, cur_buf):
-                return "empty answer not followed by the same request"
-            pos += 1
+    if items[0][1] != start:
+        return "first request asks for %r, not the start offset %r" % (items[0][1], start)
+    delivered = [o for x in items if x[0] == "deliver" for o in x[1]]
+    if any(b <= a for a, b in zip(delivered, delivered[1:])):
+        return "offsets handed to the processor are repeated or out of order: %r" % (delivered,)
+    if delivered and delivered[0] < start:
+        return "offset %d below the start offset %d handed to the processor" % (delivered[0], start)
+    # segment: what happens between the i-th fetch and the next one belongs to the i-th answer
+    segs, cur = [], None
+    for x in items:
+        if x[0] == "fetch":
+            cur = {"fetch": x, "after": []}
+            segs.append(cur)
         else:
-            if len(rest) < 2 or rest[0] != ("deliver", cur_off, cur_off + e - 1) or rest[1] != ("fetch", cur_off + e, cur_buf):
-                return "answer with %d message(s) at %d: got %r" % (e, cur_off, rest[:2])
-            cur_off += e
-            pos += 2
+            cur["after"].append(x)
+    last = None     # last offset handed over so far
+    for i, seg in enumerate(segs):
+        _, fo, buf = seg["fetch"]
+        want = start if last is None else last + 1
+        if fo != want:
+            return "request %d asks for offset %d but the last message handed over is %r (start %d): %s" % (
+                i, fo, last, start, "skipped" if fo > want else "re-requested")
+        if i >= len(events):
+            if seg["after"]:
+                return "activity without an answer"
+            break
+        offs, tail = events[i]
+        kept = [o for x in seg["after"] if x[0] == "deliver" for o in x[1]]
+        # every yielded offset at or after the (running) fetch offset must be handed over, nothing else
+        run_fo, must = fo, []
+        for o in offs:
+            if o >= run_fo:
+                must.append(o)
+                run_fo = o + 1
+        failed = ("failed",) in seg["after"]
+        if failed and tail == TOOSMALL:
+            must = []       # once the start Deferred has failed nothing more is handed over (consumer.py:1015-1021)
+        if kept != must:
+            return "answer %d yielded offsets %r at fetch offset %d: handed over %r, expected %r" % (i, offs, fo, kept, must)
+        if kept:
+            last = kept[-1]
+        nxt = segs[i + 1]["fetch"] if i + 1 < len(segs) else None
+        if tail == TOOSMALL:
+            if failed:
+                if maxbuf is None or buf < maxbuf:
+                    return "start failed although the buffer %d is below the maximum %r" % (buf, maxbuf)
+                if nxt is not None:
+                    return "a request was sent after the start Deferred failed"
+                return None
+            if nxt is None:
+                return "a too-small answer produced neither a new request nor a failure"
+            if not nxt[2] > buf:
+                return "buffer not enlarged after a too-small answer (%d -> %d)" % (buf, nxt[2])
+            if maxbuf is not None and nxt[2] > maxbuf:
+                return "buffer %d above max_buffer_size %d" % (nxt[2], maxbuf)
+        else:
+            if failed:
+                return "start failed on an answer that is not too small"
+            if nxt is None:
+                return "no new request after answer %d" % i
+            if nxt[2] != buf:
+                return "buffer changed (%d -> %d) without a too-small answer" % (buf, nxt[2])
     return None
 
 
-# ====================================================================== the check
 def describe(c):
     return {"op": c[0], "line": c[:48]}
 
@@ -638,6 +729,22 @@ def run(ck):
             new = CL.rbytes(rnd, 4)
             if new != data[start + 12:start + 16]:
                 corrupt_case(ents, exp, vi, data[:start + 12] + new + data[start + 16:], "crc", "CRC field replaced")
+    # ---- the bit order of "burst <= 32 bits" (C12_crc_burst_msb_order_refuted): 0a 1e e9 d5 e0 xored into five consecutive
+    # bytes spans 31 bit positions when each byte is numbered most significant bit first (39 in the CRC's own LSB-first
+    # order).  It is a multiple of the generator polynomial: zlib.crc32 cannot see it and the decoder DELIVERS the altered
+    # message.  Inherent to CRC-32; recorded (never a violation), so that nobody reads the burst theorem for more than it says.
+    vm = Plain(1, 0, b"key", b"hello world, this is a test of the checksum", 7)
+    vdata = CL.raw_set([(3, vm.raw())])
+    vpos = vdata.index(b"world")
+    vdam = vdata[:vpos] + bytes(a ^ b for a, b in zip(vdata[vpos:vpos + 5], bytes([0x0A, 0x1E, 0xE9, 0xD5, 0xE0]))) + vdata[vpos + 5:]
+    _, _, vmsgs, vout = decode_impl(vdam)
+    msb_witness = {"pattern_hex": "0a1ee9d5e0", "span_bits_msb_first": 31, "span_bits_crc_order": 39,
+                   "zlib_crc32_unchanged": zlib.crc32(vdata[12 + 4:]) == zlib.crc32(vdam[12 + 4:]),
+                   "altered_message_delivered": bool(vout == 0 and len(vmsgs) == 1 and vmsgs[0][1][3] != vm.value),
+                   "delivered_value": repr(vmsgs[0][1][3]) if vmsgs else None}
+    ck.cov["burst_bit_order_witness"] = msb_witness
+    ck.hist("msb_order_31bit_burst_undetected_by_crc32" if msb_witness["zlib_crc32_unchanged"] else "msb_order_31bit_burst_detected")
+
     # ---- large messages: a check that is skipped or shortened for big payloads must not go unnoticed.
     # values of 5000 / 70000 / 2^20 bytes, plain and as the payload of a gzip wrapper; damage at the very start, the
     # middle and the very end of the checksummed bytes, in the CRC field, plus random flips and bursts.
@@ -846,6 +953,8 @@ def run(ck):
     ck.cov["notes"] = [
         "bit errors in the 8-byte offset field of a set entry are not under the CRC (message formats 0 and 1): the intact message is delivered under the altered offset (histogram corrupt/offset)",
         "bit errors in the 4-byte size field: never the damaged entry; ChecksumError, ProtocolError (negative), or the entry is taken for a partial trailing message (silent stop / ConsumerFetchSizeTooSmall) (histogram corrupt/size)",
+        "bit order: 'burst of at most 32 bits' is proved for positions in the CRC's own order (bytes in stream order, inside a byte the LEAST significant bit first). With the most significant bit of each byte first the same sentence is false (C12_crc_burst_msb_order_refuted; the run replays 0a1ee9d5e0 on the real decoder: coverage.burst_bit_order_witness). In any numbering: single-bit flips and alterations confined to 4 consecutive bytes are always detected",
+        "a CRC-valid entry in the middle of a set whose inner key/value lengths overrun the entry raises BufferUnderflowError inside _decode_message and is taken for a partial tail: the rest of the answer is dropped silently (kafkacodec.py:381-396; model identical). Excluded from the statement (no producer writes such an entry); nothing corrupt is delivered",
         "nested compression: every message is handed up through one generator per nesting level, so decoding costs (messages x depth); depth is bounded only by Python's recursion limit (RecursionError near 320 levels). Measured on the unchanged tree, untraced: 10 KB on the wire = 200 levels around 4000 empty messages -> 2.0 s. Kafka itself allows one level; the run exercises depth <= 5",
     ]
     ck.cov["work_monitor"] = {"bounds": {"lines": [LINES_BASE, LINES_PER_BYTE], "tracemalloc_peak": [MEM_BASE, MEM_PER_BYTE], "seconds": [TIME_BASE, TIME_PER_BYTE]},
@@ -894,6 +1003,7 @@ def run(ck):
     # ============================================================ E. the consumer
     grow_cases, grow_impl, grow_meta = [], [], []
     bufs = [1, 13, 100, 1000, 65536, 131072, 2 ** 20 - 1, 2 ** 20, 2 ** 20 + 1, 2 ** 21, 2 ** 24]
+    TAILN = {CLEAN: "clean", TOOSMALL: "toosmall", CORRUPT: "corrupt"}
 
     def consumer_case(off, buf, maxbuf, events, replies, tr, label):
         grow_cases.append(grow_case(off, buf, maxbuf, events))
@@ -901,75 +1011,90 @@ def run(ck):
         grow_meta.append((off, buf, maxbuf, events, replies))
         items = parse_ctrace(tr)
         ck.hist("consumer/%s -> %s" % (label, "start_failed" if ("failed",) in items else "running"))
-        bad = consumer_monitor(tr, events, maxbuf)
+        bad = consumer_monitor(tr, events, off, maxbuf)
         if bad:
-            violation("consumer does not enlarge its buffer and refetch the same offset (or fail at the maximum)", bad, None,
+            violation("consumer does not enlarge its buffer and refetch behind the last message handed over (or fail at the maximum)", bad, None,
                       {"start_offset": off, "buffer_size": buf, "max_buffer_size": maxbuf, "events": events,
                        "replies_hex": [x.hex() for x in replies], "implementation_trace": tr}, op="consumer")
         return items
 
-    for i in range(60 * scale):
+    for i in range(90 * scale):
         buf = rnd.choice(bufs)
         maxbuf = None if rnd.random() < 0.3 else rnd.choice([buf, buf + 1, buf * 2 - 1, buf * 2, buf * 16 - 1, buf * 16, buf * 16 + 1, buf * 100, buf * 4096])
         maxbuf = None if maxbuf is None else max(maxbuf, buf)
         off = rnd.choice([0, 1, 500, 2 ** 40])
         events, replies, cur = [], [], off
         for _ in range(rnd.randint(1, 8)):
+            # offsets the decoder will yield: some below the fetch offset (head of a wrapper), a run from it on with gaps,
+            # now and then something out of order
+            offs = []
+            if rnd.random() < 0.3:
+                lo = max(cur - rnd.randint(1, 4), 0)
+                offs += list(range(lo, cur))
             x = rnd.random()
-            if x < 0.55:
-                e = entry_bytes(cur, rnd.randint(0, 30), rnd)
-                replies.append(e[:rnd.randint(1, len(e) - 1)])
-                events.append(None)
-            elif x < 0.65:
-                replies.append(b"")
-                events.append(0)
-            else:
-                k = rnd.randint(1, 3)
-                rec = b"".join(entry_bytes(cur + j, rnd.randint(0, 20), rnd) for j in range(k))
-                if rnd.random() < 0.5:
-                    e = entry_bytes(cur + k, 10, rnd)
-                    rec += e[:rnd.randint(1, len(e) - 1)]
-                replies.append(rec)
-                events.append(k)
-                cur += k
+            n = 0 if x < 0.4 else rnd.randint(1, 4)
+            o = cur
+            for _ in range(n):
+                o += rnd.choice([0, 0, 0, 1, 5])          # gaps
+                offs.append(o)
+                o += 1
+            if offs and rnd.random() < 0.08:
+                offs.insert(rnd.randrange(len(offs) + 1), rnd.choice(offs) - rnd.randint(0, 2))   # repeated / out of order
+                offs = [max(v, 0) for v in offs]
+            r = rnd.random()
+            tail = TOOSMALL if r < (0.6 if not offs else 0.25) else CORRUPT if r < (0.7 if not offs else 0.45) else CLEAN
+            ck.hist("consumer_answer/%s_%s" % ("messages" if py_accept(cur, offs)[0] else "nothing", TAILN[tail]))
+            events.append((offs, tail))
+            replies.append(reply_for(offs, tail, rnd))
+            cur = py_accept(cur, offs)[1]
         tr = impl_consumer(off, buf, maxbuf, replies)
-        # answers after a failure are never asked for: the model ignores them as well
         consumer_case(off, buf, maxbuf, events, replies, tr, "scripted")
-    # honest broker: a log holding one message larger than the buffer; every reply is the log from the requested offset
-    # cut at the max_bytes the consumer REALLY asked for
+        # the decoder really yields what the case line says (otherwise the model would be given a different history)
+        for (offs, tail), rec in zip(events, replies):
+            _, _, msgs, outcome = decode_impl(rec)
+            want_out = {CLEAN: (0,), TOOSMALL: (CL.E_FETCHSMALL,), CORRUPT: (CL.E_CHECKSUM, CL.E_PROTOCOL, CL.E_CODEC)}[tail]
+            if [o for o, _ in msgs] != offs or outcome not in want_out:
+                violation("harness: a scripted consumer answer does not decode as intended", "%r %s -> %r %s" % (offs, TAILN[tail], [o for o, _ in msgs], err_name(outcome)), rec, no_input=True)
+    # honest broker: a log (gaps allowed) holding one message larger than the buffer; every reply is the log from the
+    # requested offset cut at the max_bytes the consumer REALLY asked for
     for i in range(25 * scale):
         buf = rnd.choice([20, 50, 64, 100, 300])
         sizes = [rnd.choice([0, 5, 10, 40]) for _ in range(rnd.randint(1, 5))]
         sizes[rnd.randrange(len(sizes))] = rnd.choice([buf, buf * 3, buf * 16, buf * 40, buf * 300])
-        log = [entry_bytes(100 + j, sz, rnd) for j, sz in enumerate(sizes)]
+        offsets, o = [], 100
+        for _ in sizes:
+            o += rnd.choice([0, 0, 1, 7])
+            offsets.append(o)
+            o += 1
+        log = [small_entry(oo, rnd, sz) for oo, sz in zip(offsets, sizes)]
         biggest = max(len(e) for e in log)
         maxbuf = rnd.choice([None, biggest - 1, biggest, biggest + 1, buf * 16, buf * 256])
         maxbuf = None if maxbuf is None else max(maxbuf, buf)
         events, replies = [], []
 
-        def broker(i, offset, max_bytes, log=log, events=events, replies=replies):
-            pos = offset - 100
-            if i >= 40 or not (0 <= pos < len(log)):
+        def broker(i, offset, max_bytes, log=log, offsets=offsets, events=events, replies=replies):
+            pos = next((j for j, oo in enumerate(offsets) if oo >= offset), None)
+            if i >= 40 or pos is None:
                 return None
             rec = b"".join(log[pos:])[:max_bytes]
             k, used = 0, 0
             while pos + k < len(log) and used + len(log[pos + k]) <= len(rec):
                 used += len(log[pos + k])
                 k += 1
-            events.append(k if k else None)
+            events.append((offsets[pos:pos + k], CLEAN if k or not rec else TOOSMALL))
             replies.append(rec)
             return rec
         tr = impl_consumer(100, buf, maxbuf, broker)
         items = consumer_case(100, buf, maxbuf, events, replies, tr, "honest_broker")
-        delivered = [o for x in items if x[0] == "deliver" for o in range(x[1], x[2] + 1)]
+        delivered = [oo for x in items if x[0] == "deliver" for oo in x[1]]
         fits = maxbuf is None or biggest <= maxbuf
-        want = list(range(100, 100 + len(log))) if fits else list(range(100, 100 + next(j for j, e in enumerate(log) if len(e) > maxbuf)))
+        want = offsets if fits else offsets[:next(j for j, e in enumerate(log) if len(e) > maxbuf)]
         failed = ("failed",) in items
-        if delivered != want or failed != (not fits):
+        if delivered != want or failed != (not fits):       # C12_consumer_no_skip against the broker's own log
             violation("consumer over an honest broker: a message larger than the buffer was skipped, repeated, or the start Deferred did not fail at the maximum",
                       "delivered %r, expected %r, failed=%r" % (delivered, want, failed), None,
                       {"start_offset": 100, "buffer_size": buf, "max_buffer_size": maxbuf, "events": events, "entry_sizes": [len(e) for e in log],
-                       "replies_hex": [x.hex() for x in replies], "implementation_trace": tr}, op="consumer")
+                       "log_offsets": offsets, "replies_hex": [x.hex() for x in replies], "implementation_trace": tr}, op="consumer")
     # the bare rule on a grid (model op 2 vs the buffer the real consumer asks for after ONE too-small answer)
     for buf in bufs + [rnd.randint(1, 2 ** 22) for _ in range(20 * scale)]:
         for maxbuf in (None, buf, buf + 1, buf * 2, buf * 16, buf * 16 - 1, buf * 17):
@@ -978,7 +1103,7 @@ def run(ck):
             nxt = [1, items[1][2]] if len(items) > 1 and items[1][0] == "fetch" else [0] if items[1:] == [("failed",)] else [-5]
             grow_cases.append([2, buf, 0 if maxbuf is None else 1, maxbuf or 0])
             grow_impl.append(nxt)
-            grow_meta.append((0, buf, maxbuf, [None], [e[:7]]))
+            grow_meta.append((0, buf, maxbuf, [([], TOOSMALL)], [e[:7]]))
 
     # ============================================================ correspondences
     def set_nontrivial(c, o):
@@ -1010,7 +1135,7 @@ def run(ck):
         violation("consumer and model react differently to too-small fetch answers", "buffer %d max %r" % (buf, maxbuf), None,
                   {"correspondence": "corr:fetchgrow:run", "start_offset": off, "buffer_size": buf, "max_buffer_size": maxbuf, "events": events,
                    "replies_hex": [x.hex() for x in replies][:10], "implementation_trace": grow_impl[i][:100], "model_trace": mog[i][:100],
-                   "theorems_no_longer_tied": ["C12_consumer_grows", "C12_consumer_never_skips", "C12_consumer_reaches_any_size", "C12_consumer_reaches_max"]},
+                   "theorems_no_longer_tied": ["C12_consumer_grows", "C12_consumer_no_repeat", "C12_consumer_no_skip", "C12_consumer_reaches_any_size", "C12_consumer_reaches_max"]},
                   op="consumer", no_input=True)
 
     for label, case, impl, model in selftest_diffs[:2]:
@@ -1024,21 +1149,25 @@ def run(ck):
         ck.coqchk(["AV.Props.C12"])
     ck.cov["rule"] = ("seeded generators (random.Random(VERIF_SEED)). Mostly-valid stream: message sets of 1-5 entries, formats 0/1, null/empty/random keys and "
                       "values, boundary timestamps, gzip wrappers as a broker stores them (depth <= 3); EVERY single-bit flip of one entry (first, middle, last, "
-                      "a gzip wrapper) of %d base sets, random bursts spanning <= 32 bits and <= 4-byte replacements inside the checksummed bytes, CRC field "
-                      "replacements; EVERY cut point of %d sets. Malformed stream (separate generator): for each of the 15 public decoders and the set decoder "
+                      "a gzip wrapper, the smallest messages; messages of at most ~60 bytes) of %d base sets, random bursts spanning <= 32 bits IN CRC BIT ORDER and "
+                      "<= 4-byte replacements inside the checksummed bytes, CRC field replacements; large messages (5000 / 70000 / 2^20-byte values, plain and as "
+                      "gzip wrapper payload): flips at the start / middle / end / 4 KiB boundaries, bursts, CRC field; EVERY cut point of %d sets. Malformed stream (separate generator): for each of the 15 public decoders and the set decoder "
                       "8 length/count-oriented mutations (hostile int32/int16 written at a random position, two at once, truncation, extension, byte noise) of "
                       "each of 8 valid responses, random bytes of 13 lengths, hand-made count bombs (count 10^6, 10^7, 2^31-1 over empty / tiny / non-advancing "
                       "items, negative counts) for every counted structure, hostile entry sizes and key/value lengths, unusable gzip payloads, a decompression "
-                      "bomb, long valid inputs. Consumer: scripted too-small / empty / k-message answers and an honest broker cutting its log at max_bytes. "
+                      "bomb, long valid inputs (inputs of this stream stay below ~40 KB; the same bytes with three different claimed counts must cost the same lines). "
+                      "Scaling: every decoder with a loop on inputs of 2000 and 8000 items (50-500 KB) under a byte-copy counter, the set decoder on 0.6 / 2.4 MB for the "
+                      "4x time ratio. Consumer: scripted answers = (offsets the decoder yields: below the fetch offset, gaps, out of order; ending clean / too small / "
+                      "decoding error, also after delivered messages: a wrapper whose inner set is cut) and an honest broker with gaps cutting its log at max_bytes. "
                       "A case is non-trivial if at least one message was delivered or an exception was raised; distinct = distinct canonical case lines."
                       % (nbase, 8 * scale))
     ck.assumptions += [
         "Model/Prim.v, Model/Crc.v, Model/MsgSet.v stand for afkak/_util.py:153-196, zlib.crc32 and afkak/kafkacodec.py:361-469 (tie = this run's correspondence incl. codec_lib.selftest, not proof)",
-        "Model/FetchGrow.v stands for afkak/consumer.py:925-996,1093-1104 only (synchronous processor, no errors/commits/stop: those are Model/Consumer.v, property C14)",
+        "Model/FetchGrow.v stands for afkak/consumer.py:925-996,1015-1021,1093-1104 and the unlimited-retry path of _handle_fetch_error only (synchronous processor, request_retry_max_attempts = 0, no OffsetOutOfRange, no commits/stop: those are Model/Consumer.v, property C14)",
         "Model/Responses.v (property C05's model of every decode_*) is compared with the implementation on the malformed stream; the C12 theorems about readers and counted loops are generic (any reader consuming >= c bytes) and are not instantiated per decoder",
         "bursts that straddle the boundary between the stored CRC field and the checksummed bytes, and alterations of the offset/size fields of a message-set entry (not covered by the CRC in formats 0 and 1), are outside the theorems; the run records what the implementation does there",
         "gzip is an oracle (its recorded answers are given to the model); work is bounded relative to input bytes + decompressed bytes; snappy is not installed and not exercised; nesting deeper than the recursion limit is not exercised",
-        "work monitor: sys.settrace line events of files under <repo>/afkak, time.perf_counter, tracemalloc; the bounds are constants chosen with a wide margin over the worst ratio observed on the unchanged tree (recorded in coverage.work_monitor)",
+        "work monitor: sys.settrace line events of files under <repo>/afkak (bound 3x the worst ratio of the unchanged tree), time.perf_counter, tracemalloc peak (memory is monitor-only: no theorem); byte-level work is seen only by the scaling monitor: bytes copied by slicing a counting bytes subclass (bound 4x the unchanged tree) and the wall-time ratio for a 4x larger set (bound 7, linear = 4); copies made without slicing the input (e.g. bytes(data) in a loop) are visible to the time ratio only",
         "extraction: ExtrOcamlBasic only; OCaml 4.13.1 ocamlopt; a sample of the case lines is re-evaluated in Coq by vm_compute",
     ]
     ck.cov["trusted_base"] += ["correspondence harness harness/props/C12.py + harness/props/codec_lib.py + harness/props/C05.py (impl_decode / generators) + harness/vlib.py",
@@ -1101,13 +1230,30 @@ def replay(rp):
         bad = aborted or lines > LINES_BASE + LINES_PER_BYTE * nbytes or peak > MEM_BASE + MEM_PER_BYTE * nbytes or dt > TIME_BASE + TIME_PER_BYTE * nbytes
         print("verdict:", "VIOLATION reproduced (work not proportional to the input)" if bad else "within the bounds")
         return 1 if bad else 0
+    if op == "scaling":
+        from props import C05 as R
+        api, ver, n = rp["api"], rp.get("ver", 0), rp.get("scaling_n", 2000)
+        idx = 0
+        data = bytes.fromhex(rp["data_hex"]) if rp.get("data_hex") else [d for a, v, d in scaling_inputs(R, n) if a == api][idx]
+        _, copied = copied_bytes(lambda d: run_decoder(api, ver, d), data)
+        print("%s on %d bytes: %d bytes copied by slicing (bound %d)" % (api, len(data), copied, COPY_BASE + COPY_PER_BYTE * len(data)))
+        bad = copied > COPY_BASE + COPY_PER_BYTE * len(data)
+        if "seconds_small" in rp:
+            small = [d for a, v, d in scaling_inputs(R, n) if a == api][idx]
+            large = [d for a, v, d in scaling_inputs(R, 4 * n) if a == api][idx]
+            t1, t4 = best_time(lambda: run_decoder(api, ver, small), 5), best_time(lambda: run_decoder(api, ver, large), 5)
+            ratio = t4 / max(t1, 1e-6) * (4.0 * len(small) / len(large))
+            print("%d bytes: %.3f s, %d bytes: %.3f s, ratio for 4x the input %.1f (bound %.1f)" % (len(small), t1, len(large), t4, ratio, SCALE_RATIO))
+            bad = bad or ratio > SCALE_RATIO
+        print("verdict:", "VIOLATION reproduced (work grows faster than the input)" if bad else "within the bounds")
+        return 1 if bad else 0
     if op == "consumer":
         replies = [bytes.fromhex(x) for x in rp["replies_hex"]]
         tr = impl_consumer(rp["start_offset"], rp["buffer_size"], rp["max_buffer_size"], replies)
         print("consumer buffer_size=%r max_buffer_size=%r start offset %r" % (rp["buffer_size"], rp["max_buffer_size"], rp["start_offset"]))
-        print("events (None = no complete message, k = k messages):", rp["events"])
-        print("trace now (1 off max_bytes = fetch, 3 first last = delivered, 2 = start failed):", tr)
-        bad = consumer_monitor(tr, rp["events"], rp["max_buffer_size"])
+        print("answers (offsets the decoder yields, ending 0 clean / 1 too small / 2 decoding error):", rp["events"])
+        print("trace now (1 off max_bytes = fetch, 3 n offsets = handed to the processor, 2 = start failed):", tr)
+        bad = consumer_monitor(tr, [(list(o), t) for o, t in rp["events"]], rp["start_offset"], rp["max_buffer_size"])
         print("verdict:", ("VIOLATION reproduced: " + bad) if bad else "monitor passes")
         return 1 if bad else 0
     if op == "crc":
